@@ -6,7 +6,9 @@ For each public method (private helpers and calls to other public methods of the
 inlined at the call site) the shape is the sequence, in source order, of
 
   clock              a call of std::chrono::steady_clock::now()
-  acq / rel          construction of a std::lock_guard on a member / end of its scope
+  acq / rel          construction of a std::lock_guard / std::scoped_lock / std::unique_lock on m_lock / end of
+                     its scope; explicit lock() / unlock() on such a unique_lock or on m_lock itself when they
+                     are not under an if / switch / ?: / try (there: unknown)
   rd c / wr c        an access to member component c of *this (const use = rd, anything else = wr;
                      std::vector members are split into <m>.hdr (size/capacity/empty) and <m>.data)
   loop[ ... ]        a for/while/range-for body
@@ -26,6 +28,15 @@ CLASSES = ["fifo_cache", "lfu_cache", "lfuda_cache", "lru_cache", "mru_cache", "
 VECTOR_HDR = {"size", "capacity", "empty", "max_size"}
 VECTOR_DATA = {"operator[]", "at", "data", "front", "back", "begin", "end", "cbegin", "cend"}
 LOOPS = {"ForStmt", "WhileStmt", "DoStmt", "CXXForRangeStmt"}
+CONDS = {"IfStmt", "SwitchStmt", "ConditionalOperator", "BinaryConditionalOperator", "CXXTryStmt"}
+GUARDS = ("lock_guard", "scoped_lock", "unique_lock")
+
+
+def mentions(n, name):
+    """does the subtree reference a declaration / member called `name`?"""
+    if n.get("name") == name or n.get("referencedDecl", {}).get("name") == name:
+        return True
+    return any(mentions(c, name) for c in inner(n))
 
 
 def clang_ast(repo):
@@ -99,6 +110,39 @@ class Walker:
     def __init__(self, ci):
         self.ci = ci
         self.stack = []
+        self.cond = 0        # number of if / switch / ?: / try constructs around the node being visited
+        self.guards = {}     # VarDecl id of a guard on m_lock -> does it hold the lock (straight-line reading)
+
+    def guard_decl(self, v, out):
+        """v: VarDecl of a guard type. Returns True if it was understood (tokens appended)."""
+        t = v.get("type", {}).get("qualType", "")
+        if not mentions(v, "m_lock"):
+            out.append(("unknown", "guard on something other than m_lock"))
+            return
+        if mentions(v, "try_to_lock") or mentions(v, "adopt_lock"):
+            out.append(("unknown", "try_to_lock/adopt_lock"))
+            return
+        if mentions(v, "defer_lock"):
+            self.guards[v["id"]] = False
+            return
+        out.append(("acq", ""))
+        self.guards[v["id"]] = True
+
+    def lock_op(self, name, held_key, out):
+        """explicit lock()/unlock()/try_lock() on a tracked guard (held_key = VarDecl id) or on m_lock (None)"""
+        if self.cond > 0:
+            out.append(("unknown", "conditional " + name))
+            return
+        if name == "lock":
+            out.append(("acq", ""))
+            if held_key is not None:
+                self.guards[held_key] = True
+        elif name == "unlock":
+            out.append(("rel", ""))
+            if held_key is not None:
+                self.guards[held_key] = False
+        else:
+            out.append(("unknown", name + " on the lock"))
 
     def method(self, mid):
         if mid in self.stack:
@@ -114,6 +158,14 @@ class Walker:
         """n: MemberExpr on this naming a field; parents: the chain of nodes above it, nearest last."""
         name = n["name"]
         if name == "m_lock":
+            # handed to a guard's constructor (seen by guard_decl), or locked / unlocked directly
+            for p in reversed(parents):
+                k = p.get("kind")
+                if k in ("ImplicitCastExpr", "ParenExpr"):
+                    continue
+                if k == "MemberExpr":
+                    self.lock_op(p.get("name", ""), None, out)
+                break
             return
         ftype = self.ci.fields.get(name, "")
         is_vec = "std::vector" in ftype
@@ -159,17 +211,25 @@ class Walker:
         parent = parents[-1] if parents else None
         k = n.get("kind")
         if k == "CompoundStmt":
-            guards = 0
+            mine = []
             for c in inner(n):
-                if c.get("kind") == "DeclStmt" and any(
-                        v.get("kind") == "VarDecl" and "lock_guard" in v.get("type", {}).get("qualType", "")
-                        for v in inner(c)):
-                    out.append(("acq", ""))
-                    guards += 1
+                gs = [v for v in inner(c) if v.get("kind") == "VarDecl" and
+                      any(g in v.get("type", {}).get("qualType", "") for g in GUARDS)] if c.get("kind") == "DeclStmt" else []
+                if gs:
+                    for v in gs:
+                        self.guard_decl(v, out)
+                        mine.append(v["id"])
                     continue
                 self.visit(c, out, parents + [n])
-            for _ in range(guards):
-                out.append(("rel", ""))
+            for g in reversed(mine):
+                if self.guards.pop(g, False):
+                    out.append(("rel", ""))
+            return
+        if k in CONDS:
+            self.cond += 1
+            for c in inner(n):
+                self.visit(c, out, parents + [n])
+            self.cond -= 1
             return
         if k in LOOPS:
             body = []
@@ -199,6 +259,12 @@ class Walker:
                         out.extend(self.method(target))
                     return
                 out.append(("unknown", "this->" + name))
+                return
+            # guard.lock() / guard.unlock() on a tracked unique_lock
+            base = strip_casts(kids[0]) if kids else {}
+            gid = base.get("referencedDecl", {}).get("id") if base.get("kind") == "DeclRefExpr" else None
+            if gid in self.guards and n.get("name") in ("lock", "unlock", "try_lock", "release", "swap"):
+                self.lock_op(n.get("name"), gid, out)
                 return
             for c in kids:
                 self.visit(c, out, parents + [n])
